@@ -1228,6 +1228,52 @@ func runC13(c *h.Ctx) {
 			}
 		}
 	}
+	// what a unary minus returns has gone through it: over positive numbers
+	// every item of the result is negative - also when the operand fails after
+	// some items (a string among them, a missing member) and the failure is
+	// suppressed
+	{
+		k := 0
+		for _, d := range []string{`[1,2,"x",4]`, `[3,{"a":1},5]`, `{"v":[1,2,"x"]}`, `[1,"2",[],4]`} {
+			for _, pt := range []string{`strict -$[*].double()`, `strict -$[*].integer()`, `strict -$[0 to 3].abs()`, `-$[*].double()`, `strict -$.v[*].number()`, `strict -$[*].a`, `strict -$[0, 1, 9]`, `-$[*].abs()`, `strict -$[*].ceiling()`} {
+				k++
+				if !c.Mine(k) {
+					continue
+				}
+				p := cachedPath(pt)
+				if p == nil {
+					continue
+				}
+				for _, useNum := range []bool{false, true} {
+					for _, silent := range []bool{true, false} {
+						for _, e := range []string{"query", "first"} {
+							o := h.Call(e, p, h.Decode(d, useNum), h.Opts{Silent: silent})
+							c.Eval(1)
+							if o.Class != h.OK {
+								c.Held("unary.map")
+								continue
+							}
+							items := o.Items
+							if e == "first" && o.Val != nil {
+								items = []any{o.Val}
+							}
+							bad := ""
+							for _, it := range items {
+								if r, ok := h.Rat(it); ok && r.Sign() > 0 {
+									bad = h.Canon(it)
+								}
+							}
+							if bad != "" {
+								c.Violate("unary.map", h.F("form", "untouched-operand-item", "entry", e, "silent", fmt.Sprint(silent)), fmt.Sprintf("%s(%s) on %s (silent=%v) = %s: %s has not gone through the operator", e, pt, d, silent, o.Summary(), bad), h.Case{Kind: "singleton", Path: pt, Doc: d, UseNum: useNum, Silent: silent, Entry: e})
+							} else {
+								c.Held("unary.map")
+							}
+						}
+					}
+				}
+			}
+		}
+	}
 	// random pairs near the boundaries
 	r := c.Rand("c13")
 	n := c.PerShard(c.N(2000000, 20000000))
